@@ -194,6 +194,11 @@ func Compile(originConf *Config, exprStr string) (*Expr, error) {
 
 	expr := buildExpr(conf, ast, res.size)
 
+	// event nodes are inserted after the check, the program must still be addressable
+	if len(expr.nodes) > math.MaxInt16 {
+		return nil, fmt.Errorf("expression cannot exceed a maximum of 32767 nodes (including event nodes), got: [%d]", len(expr.nodes))
+	}
+
 	return expr, nil
 }
 
@@ -777,8 +782,8 @@ func calAndSetEventNode(e *Expr) {
 	var (
 		nodes          = e.nodes
 		size           = int16(len(nodes))
-		res            = make([]*node, 0, size*2)
-		parents        = make([]int16, 0, size*2)
+		res            = make([]*node, 0, int(size)*2)
+		parents        = make([]int16, 0, int(size)*2)
 		eventNodeIdxes = make([]int16, size)
 		realIdxes      = make([]int16, size)
 	)
